@@ -1,3 +1,89 @@
-import QcoVerif.Model.Builder
+import QcoVerif.Lemmas.Graph
+import QcoVerif.Lemmas.Listing
+/-
+  C02 — nothing lost, nothing duplicated: the operation listing is complete, causal and stable.
+
+  The statements are about the definitions the driver executes (`listing`, `attach`, `World.addToGraph`,
+  `World.add`, `World.operations`).  Full statement of the property (for every build program the listing of a
+  circuit is exactly the added leaves, sub-circuits expanded in place) = `add_listing` (each `add` contributes
+  exactly its operation to the node listing, whatever branch of the implicit-linking logic is taken) +
+  `operations_expand` (the operation listing is the node listing with sub-circuits expanded recursively) +
+  `listing_perm`; `listing_causal_tree` is causality for the tree parent (the reference the operation was
+  hung under); causality for the *group* relation created by unrolling is false of model and code — known
+  finding R23.
+-/
 namespace Qco.C02
+
+open Qco
+
+/-- the node listing is a permutation of the inserted nodes: nothing lost, nothing duplicated. -/
+theorem listing_perm (g : List Entry) : (listing g).Perm (g.map (·.node)) := Qco.listing_perm g
+
+/-- … in particular it has as many entries as were inserted and no node twice if none was inserted twice. -/
+theorem listing_complete (g : List Entry) (h : (g.map (·.node)).Nodup) :
+    (listing g).length = g.length ∧ (listing g).Nodup ∧ ∀ n, n ∈ listing g ↔ ∃ e ∈ g, e.node = n :=
+  ⟨listing_length g, listing_nodup h, fun _ => mem_listing_iff⟩
+
+/-- `add_to_graph` hangs exactly the new operation into the graph, whichever branch is taken
+    (no relation / relation in the graph / relation not in the graph / undefined reference). -/
+theorem addToGraph_attach (w : World) (g : List Entry) (o : Nat) :
+    ∃ p, (w.addToGraph g o).2 = attach g p o := by
+  unfold World.addToGraph
+  simp only
+  split
+  · split
+    · exact ⟨none, rfl⟩
+    · split <;> exact ⟨_, rfl⟩
+  · split
+    · split
+      · exact ⟨_, rfl⟩
+      · split <;> exact ⟨_, rfl⟩
+    · split <;> exact ⟨_, rfl⟩
+
+/-- every `add` contributes exactly its operation to the node listing of the circuit. -/
+theorem add_listing (w : World) (g : List Entry) (o : Nat) :
+    (listing (w.addToGraph g o).2).Perm (o :: listing g) := by
+  obtain ⟨p, hp⟩ := addToGraph_attach w g o
+  rw [hp]
+  exact listing_attach_perm g p o
+
+/-- the operation listing is the node listing with sub-circuits expanded in place (recursively), and
+    listing changes nothing but relation links (kind, qubits, channel, duration strategy, tag, fields,
+    graphs and counts of every object are untouched). -/
+theorem operations_expand (w : World) (c : Nat) :
+    (w.operations c).2 = w.leafListing w.depthFuel c ∧ Shape (w.operations c).1 w :=
+  ⟨operations_eq_leafListing w c, operations_shape w c⟩
+
+/-- listing twice gives the same sequence: the second listing walks the same graphs. -/
+theorem listing_stable (w : World) (c : Nat) :
+    ((w.operations c).1.operations c).2 = (w.operations c).2 := operations_twice w c
+
+/-- breadth-first order: a node is never listed before a shallower one; in particular never before the node
+    it was hung under (its tree parent), whose key is one step shorter (`KeysOk`, kept by `attach`). -/
+theorem listing_causal_tree (g : List Entry) (hk : KeysOk g) {c : Entry} (hc : c ∈ g) {p : Nat}
+    (hp : c.parent = some p) :
+    ∃ pe ∈ g, pe.node = p ∧ ¬ [c, pe].Sublist (sortedEntries g) := by
+  have := hk c hc
+  rw [hp] at this
+  obtain ⟨pe, hpe, hn, hl⟩ := this
+  exact ⟨pe, hpe, hn, not_deeper_first g (by omega)⟩
+
+/-- the invariant `KeysOk` holds for every graph built by `attach` under nodes of the graph. -/
+theorem keysOk_preserved {g : List Entry} (h : KeysOk g) (p : Option Nat) (n : Nat)
+    (hp : ∀ q, p = some q → inGraph g q = true) : KeysOk (attach g p n) := keysOk_attach h p n hp
+
+/-- non-vacuity: a three-level tree with two branches satisfies the invariant and lists breadth first. -/
+example : KeysOk (attach (attach (attach (attach [] none 10) none 11) (some 11) 12) (some 10) 13) ∧
+    (attach (attach (attach (attach [] none 10) none 11) (some 11) 12) (some 10) 13).map (·.key) =
+      [[0], [1], [1, 0], [0, 0]] := by
+  constructor
+  · apply keysOk_attach
+    · apply keysOk_attach
+      · apply keysOk_attach
+        · apply keysOk_attach keysOk_nil; intro q h; cases h
+        · intro q h; cases h
+      · intro q h; cases h; decide
+    · intro q h; cases h; decide
+  · decide
+
 end Qco.C02
